@@ -28,7 +28,7 @@ pub fn meta() -> PropMeta {
         nontrivial_floor: 0.3,
         run,
         replay,
-        crashy: false,
+        crashy: true,
     }
 }
 
@@ -603,7 +603,7 @@ fn sig(e: &str) -> String {
 
 fn run(ctx: &ShardCtx, rep: &mut Report) {
     MAX_SHRINK_ITERS.store(400, std::sync::atomic::Ordering::Relaxed);
-    pt_run(ctx, rep, "sender-peer", ctx.budget(16_000, 800_000), case_a_strategy(), |c, obs| match guarded(|| run_sync(c.tokio_seed, run_a(c))) {
+    pt_run(ctx, rep, "sender-peer", ctx.budget(48_000, 2_000_000), case_a_strategy(), |c, obs| match guarded(|| run_sync(c.tokio_seed, run_a(c))) {
         Ok(Ok(info)) => {
             if c.rcv_second {
                 obs.class("mode-second");
@@ -631,7 +631,7 @@ fn run(ctx: &ShardCtx, rep: &mut Report) {
             Err(format!("panic: {}", p.join(" | ")))
         }
     });
-    pt_run(ctx, rep, "receiver-peer", ctx.budget(10_000, 500_000), case_b_strategy(), |c, obs| match guarded(|| run_sync(c.tokio_seed, run_b(c))) {
+    pt_run(ctx, rep, "receiver-peer", ctx.budget(30_000, 1_500_000), case_b_strategy(), |c, obs| match guarded(|| run_sync(c.tokio_seed, run_b(c))) {
         Ok(Ok(info)) => {
             if info.batch {
                 obs.class("accept_all-batch");
@@ -655,7 +655,7 @@ fn run(ctx: &ShardCtx, rep: &mut Report) {
     });
     // (C) two real endpoints: outcome per delivery (reuses the C01 harness)
     let open = ctx.open_findings.clone();
-    pt_run(ctx, rep, "duo", ctx.budget(8_000, 400_000), c01::case_strategy(), |c, obs| {
+    pt_run(ctx, rep, "duo", ctx.budget(16_000, 800_000), c01::case_strategy(), |c, obs| {
         let c = &c01::widen_pipe(c, &open, &mut obs.excluded);
         match guarded(|| c01::run_case(c, &open)) {
             Ok(Ok(_)) => {
